@@ -54,4 +54,46 @@ Section ReadSlot.
     | [] => sl
     | i :: r => many_reads (fst (read_contract sl i)) r
     end.
+
+  (* ---- whole histories: write calls and read requests through the same slot ----
+     A write call (deposit, transact, finalise, commit, ...) is any function of the store
+     ([wr]: new store and answer; C02 says it is a function); it takes the store through the
+     same lock and finds the slot as the last request left it. *)
+  Context {WOut : Type}.
+  Variable wr : S -> N -> S * WOut.
+
+  Inductive req : Type :=
+  | RWrite (w : N)                 (* any indexer call *)
+  | RRead (i : N)                  (* eth_call / brc20_balance / ... : one read_contract *)
+  | RReadMulti (calls : list N)    (* eth_callMany / estimateGasMany *)
+  | REstimate (runs : list N).     (* eth_estimateGas: any number of runs *)
+
+  Inductive ans : Type :=
+  | AWrite (o : res WOut)
+  | ARead (o : res Out)
+  | AMulti (o : res (list Out))
+  | AEstimate.
+
+  Definition is_write (r : req) : bool := match r with RWrite _ => true | _ => false end.
+  Definition is_write_ans (a : ans) : bool := match a with AWrite _ => true | _ => false end.
+
+  Definition serve (sl : slot) (r : req) : slot * ans :=
+    match r with
+    | RWrite w =>
+        match sl with
+        | Taken => (Taken, AWrite Panic)
+        | Present s => let '(s', o) := wr s w in (Present s', AWrite (Ok o))
+        end
+    | RRead i => let '(sl', o) := read_contract sl i in (sl', ARead o)
+    | RReadMulti calls => let '(sl', o) := read_contract_multi sl calls in (sl', AMulti o)
+    | REstimate runs => (many_reads sl runs, AEstimate)
+    end.
+
+  Fixpoint history (sl : slot) (rs : list req) : slot * list ans :=
+    match rs with
+    | [] => (sl, [])
+    | r :: rest =>
+        let '(sl1, a) := serve sl r in
+        let '(sl2, az) := history sl1 rest in (sl2, a :: az)
+    end.
 End ReadSlot.
